@@ -399,6 +399,21 @@ def run(pid: str, tier: str, seed: int, *, replay: dict | None = None) -> int:
             ck.violation(f"replayed run rejected at event {v.rejected[0]}", {"check": "worker-c14", "scenario": replay["scenario"]})
         return ck.finish()
     scs = [replay["scenario"]] if replay is not None else FAMS[pid](tier, rng)
+    if replay is None:
+        # the same scenario families on the Redis and RabbitMQ back-ends (fake servers), a sample of each
+        nbe = {"quick": 8, "thorough": 60}[tier]
+        extra = []
+        for be in ("redis", "rabbit"):
+            for sc in rng.sample(scs, min(nbe, len(scs))):
+                sc2 = copy.deepcopy(sc)
+                sc2["backend"] = be
+                sc2["seed"] = rng.randint(0, 9999)
+                for j in sc2["jobs"]:
+                    # (an actor that ends with a CancelledError of its own making is never answered to the broker; with
+                    #  server-side in-flight state that is a scenario of its own, outside these properties)
+                    j["script"] = ["raise" if x == "cancelled" else x for x in j["script"]]
+                extra.append(sc2)
+        scs = scs + extra
     with pool() as ex:
         base = list(ex.map(_record, [(sc, chk, []) for sc in scs], chunksize=2))
         inj, injected = [], []
@@ -465,16 +480,40 @@ def run(pid: str, tier: str, seed: int, *, replay: dict | None = None) -> int:
                              "scenario": allsc[i], "at": explain(traces[i], vb.rejected[idx.index(i)], 4)})
         idx = [i for i in idx if i not in other]
         # (b) known findings
-        kd = known_devs(pid)
-        unexplained = idx
-        if kd and idx:
-            dv_tr = [[dict(traces[i][0], devs=kd)] + traces[i][1:] for i in idx]
+        unexplained = []
+        for be in ("inmem", "redis", "rabbit"):
+            bidx = [i for i in idx if allsc[i].get("backend", "inmem") == be]
+            kfs = [k for k in known_for(pid) if k.get("backend") == be and k.get("deviations")]
+            kd = sorted({d for k in kfs for d in k["deviations"]})
+            if not (kd and bidx):
+                unexplained += bidx
+                continue
+            dv_tr = [[dict(traces[i][0], devs=kd)] + traces[i][1:] for i in bidx]
             vd = tlc.validate_traces("Trace_Worker", "Trace_Worker.cfg", dv_tr)
-            ck.add_tlc(vd.result, f"re-validation of rejected traces with deviations {kd}")
-            unexplained = [idx[k] for k in vd.rejected]
-            if vd.accepted:
-                for kf in known_for(pid):
-                    ck.known(kf["id"])
+            ck.add_tlc(vd.result, f"re-validation of rejected {be} runs with deviations {kd}")
+            unexplained += [bidx[k] for k in vd.rejected]
+            for kf in kfs:
+                one = [[dict(traces[bidx[k]][0], devs=kf["deviations"])] + traces[bidx[k]][1:] for k in vd.accepted]
+                if one:
+                    v1 = tlc.validate_traces("Trace_Worker", "Trace_Worker.cfg", one)
+                    for _ in (v1.accepted or ([0] if len(kfs) == 1 else [])):
+                        ck.known(kf["id"])
+        # known findings identified by the shape of the scenario and of the rejected event (no deviation action
+        # exists for liveness findings such as "a job was not executed by the deadline")
+        still = []
+        for i in unexplained:
+            pos = v.rejected[i]
+            ev = traces[i][pos - 1] if pos <= len(traces[i]) else {}
+            hit = None
+            for kf in known_for(pid):
+                if kf.get("match_py") and kf.get("backend") == allsc[i].get("backend", "inmem") and \
+                        eval(kf["match_py"], {"sc": allsc[i], "ev": ev}):  # noqa: S307
+                    hit = kf
+            if hit:
+                ck.known(hit["id"])
+            else:
+                still.append(i)
+        unexplained = still
         for i in unexplained[:25]:
             pos = v.rejected[i]
             ck.violation(f"worker run rejected at event {pos}: {traces[i][pos - 1] if pos <= len(traces[i]) else 'end'}",
